@@ -1100,6 +1100,18 @@ class Knowledge:
                     common &= conj(a)
                 for c in common:
                     self._derive(c)
+                # isinstance(x, A) or isinstance(x, B): x is one of A | B
+                if all(isinstance(a, Sym) and a.op == 'isinstance' and
+                       a.args[0] is live[0].args[0] and
+                       all(isinstance(n, str) for n in a.args[1])
+                       for a in live):
+                    x = live[0].args[0]
+                    if isinstance(x, Sym):
+                        new = set()
+                        for a in live:
+                            new |= set(a.args[1])
+                        cur = self.types.get(x)
+                        self.types[x] = new if cur is None else (cur & new)
             return
         if op == 'ok':
             self._derive_ok(atom)
